@@ -408,7 +408,7 @@ func typeString(ds []Decl, t *Term) string {
 			for _, x := range t.Subs {
 				l = append(l, typeString(ds, x))
 			}
-			s += "[" + strings.Join(l, ",") + "]"
+			s += "[" + strings.Join(l, ", ") + "]"
 		}
 		return s
 	}
